@@ -237,7 +237,9 @@ def run(ctx):
         for g in gens:
             n_gen += 1
             ctx.functions_analysed.add(bd.name)
-            users = [c for c in bd.calls if c is not g and any(a['k'] != 'const' and g.dest['l'] in origin_locals(bd, a['pl']['l'], depth=6) for a in c.args)]
+            # (the poll loop of an `.await` is not a loop that creates objects: the machinery of the await is left out)
+            users = [c for c in bd.calls if c is not g and any(a['k'] != 'const' and g.dest['l'] in origin_locals(bd, a['pl']['l'], depth=6) for a in c.args)
+                     and not re.search(r'Future::poll$|Pin::<.*>::new_unchecked$|IntoFuture::into_future$|future::get_context$', c.fn or '')]
             looped = [u for u in users if u.bb in bd.reachable_from(bd.succs[u.bb])]
             bad = [u for u in looped if not (g.bb in bd.reachable_from(bd.succs[u.bb]) and u.bb in bd.reachable_from(bd.succs[g.bb]))]
             ctx.ob(R5, f'{bd.root}·{g.fn.rsplit("::", 1)[-1]}·fresh-per-object', not bad,
